@@ -75,7 +75,7 @@ Qed.
 Example exF_parsed_solve_hyps : forall p, In p [1; 2; 3]%nat -> (p < hd 0%nat (shape (vals_of exF_s)))%nat.
 Proof. intros p [<-|[<-|[<-|[]]]]; cbn; lia. Qed.
 
-(* ---------------- finding: the instance attribute `lags` lowered below the deepest lag of the equations ----------------
+(* ---------------- the premise prog_lags <= lags d is necessary: user-lowered instance attribute `lags` ----------------
    model.lags = 0 on the one-lag model: the guard of solve_t follows the instance attribute, so period 0 is SERVED, the
    read Y[t-1] is served the LAST period (Y[0] := 0.5 * Y[3] + X[0] = 3.0) and the period is stamped solved *)
 Definition ex_d_lowered : mdesc := mkDesc [0%nat] [0%nat] 0%nat 0%nat.
